@@ -76,6 +76,17 @@ def same(it, a, b):
     return False
 
 
+def field_is(seg, n, v, signed):
+    """is `seg` the n-bit big-endian field holding v?  For a value known to lie in [0, 2^(n-1)) the signed and the unsigned image are
+    the same bits, so either kind of segment is that field"""
+    if seg.n != n or seg.val is not v:
+        return False
+    if seg.kind == ('i' if signed else 'u'):
+        return True
+    r = getattr(v, 'bounds', None)
+    return seg.kind in ('i', 'u') and r is not None and 0 <= r[0] and r[1] < (1 << (n - 1))
+
+
 def check_fixed(run, prog, n, signed, pre, post, where):
     """store_(u)int(v, n) between `pre` and `post` unknown bits"""
     if not signed:
@@ -95,11 +106,15 @@ def _check_fixed(run, prog, n, signed, pre, post, where, lo, hi, half):
     cons = f'Builder.store_{kind}/Slice.load_{kind}'
     if pre:
         call(it, b, 'store_bits', cm.data_bits(pre, 'pre'))
-    call(it, b, f'store_{kind}', v, K(n))
+    try:
+        call(it, b, f'store_{kind}', v, K(n))
+    except RaiseEx as e:
+        run.fail('D1', f'Builder.store_{kind}', f'store_{kind}(v, {n}) raises {e} for every v in [{lo}, {hi}] - values that fit the field', where)
+        return
     if post:
         call(it, b, 'store_bits', cm.data_bits(post, 'post'))
     segs = [s for s in segs_of(b) if not (s.kind == '?')]
-    ok = len(segs) == 1 and segs[0].n == n and segs[0].kind == ('i' if signed else 'u') and segs[0].val is v
+    ok = len(segs) == 1 and field_is(segs[0], n, v, signed)
     if not ok:
         run.fail('D1', f'Builder.store_{kind}', f'store_{kind}(v, {n}) wrote {segs_of(b)} - expected one {n}-bit {"signed" if signed else "unsigned"} big-endian field holding v unmodified', where)
         return
@@ -483,7 +498,7 @@ def check(run):
         call(it, b, 'store_address', addr)
         segs = segs_of(b)
         head = ''.join(s.val for s in segs if s.kind == 'k')
-        okw = head == want and len(segs) == 3 and segs[1].kind == 'i' and segs[1].n == 8 and segs[1].val is wc and segs[2].kind == 'b' and segs[2].n == 256 and segs[2].val is hp
+        okw = head == want and len(segs) == 3 and field_is(segs[1], 8, wc, True) and segs[2].kind == 'b' and segs[2].n == 256 and segs[2].val is hp
         run.check(okw, 'D4', 'Builder.store_address[addr_std' + (',anycast]' if anycast else ']') if not okw else f'addr_std-write[{tag}]',
                   f'wrote header {head!r} + {[repr(s) for s in segs[1:]]}; TL-B: {want!r} int8 bits256' + (' (the anycast of the address is dropped)' if anycast and head == '100' else ''), wa,
                   witness=dict(anycast=anycast))
